@@ -741,6 +741,18 @@ func registerIntercepts(e *Engine) {
 	// os.ReadFile: label / name / modalias files of the fake hwmon tree do not exist
 	e.reg("os.ReadFile", func(c *CallCtx, st *State, args []Value) []Outcome {
 		p, _ := strArg(args[0])
+		if cell, ok := c.E.named["text:"+p]; ok {
+			if v, ok := st.heap[cell]; ok {
+				txt := v.(Str).S
+				el := make([]Value, len(txt))
+				for i := 0; i < len(txt); i++ {
+					el[i] = smt.BVC(uint64(txt[i]), 8)
+				}
+				bc := c.E.newCell()
+				st.heap[bc] = &ArrayV{E: el}
+				return one(st, Tuple{Slice{Cell: bc, Lo: 0, Hi: len(txt), Cap: len(txt)}, nilErr})
+			}
+		}
 		return one(st, Tuple{Slice{}, c.E.newError(st, "open "+p+": no such file or directory")})
 	})
 	// fmt.Sscanf on a concrete string with %d verbs into *int arguments
